@@ -43,7 +43,8 @@ RULES = {
     "C19-B2": "the barycentric coefficients are non-negative at every corner of the unit box of the random draws "
               "(the sample lies in the edge / face)",
     "C19-F1": "the vertices combined for a sample are those of the element drawn for it (row of edges / faces of the sampled mesh "
-              "selected by the drawn value, never by the sample counter); returned normals are face_normals of the same drawn faces",
+              "selected by the drawn value, never by the sample counter); returned normals are face_normals of the same drawn faces "
+              "(the full per-face array is never read with the inverse index of np.unique(drawn), which numbers the distinct drawn faces)",
     "C19-W1": "elements are drawn by choice(len(container), ..., p=w / sum(w)): population = number of elements of the sampled "
               "container, weights present and divided by their own sum",
     "C19-W2": "every definition of the draw weights that can reach choice(...) is computed in the same call from "
@@ -963,6 +964,31 @@ def _is_const_fallback(e):
     return isinstance(e, ast.Call) and au.call_tail(e) in ("zeros", "zeros_like")
 
 
+def _inverse_index_of(sel):
+    """`np.unique(D, return_inverse=True)[k]` with k the position of the inverse index in the returned tuple -> D, else None.
+    The inverse index addresses the *compacted* array of distinct values unique(D)[0], not the array D was drawn from."""
+    e = F.strip_calls(sel, CONVERT + ("int", "ravel", "flatten"))
+    if not (isinstance(e, ast.Subscript) and isinstance(e.value, ast.Call) and au.call_tail(e.value) == "unique" and e.value.args):
+        return None
+    c = e.value
+    kw = {k.arg: k.value for k in c.keywords}
+    if len(c.args) > 1 or None in kw or au.const(kw.get("return_inverse")) is not True:
+        return None
+    ri = kw.get("return_index")
+    if ri is not None and not isinstance(au.const(ri), bool):
+        return None
+    pos = 1 + (1 if ri is not None and au.const(ri) is True else 0)
+    k = au.const(e.slice)
+    if not isinstance(k, int) or isinstance(k, bool):
+        return None
+    n_out = 1 + sum(1 for a in ("return_index", "return_inverse", "return_counts") if au.const(kw.get(a)) is True)
+    if any(a in kw and not isinstance(au.const(kw[a]), bool) for a in ("return_counts",)):
+        return None
+    if k == pos or k == pos - n_out:
+        return c.args[0]
+    return None
+
+
 def _f1_normals(ctx, fn, fl, mesh_p, drawn_ok, point_draws=()):
     site = ctx.site(SAMP, fn)
     reads = []
@@ -982,7 +1008,15 @@ def _f1_normals(ctx, fn, fl, mesh_p, drawn_ok, point_draws=()):
         src_ok = bool(base.args) and isinstance(base.args[0], ast.Name) and base.args[0].id == mesh_p
         s = ctx.site(SAMP, fn, n)
         other = [d for d in point_draws if dr is not None and not au.same(d, dr)]
-        if v == "ok" and other and all(F.find_calls(d, "choice") for d in other + [dr]) \
+        inv_of = _inverse_index_of(sel)
+        if inv_of is not None and drawn_ok(inv_of):
+            # the whole per-face array face_normals(mesh) (one row per face of the mesh) read with the inverse index of np.unique(drawn)
+            ctx.fail("C19-F1", s, "sample_surface: returned normals are not face_normals(mesh) indexed by the drawn faces in order",
+                     f"`{au.src(n)}` reads the full per-face array `{au.src(base)[:60]}` with `np.unique({au.src(inv_of)[:40]}..., return_inverse=True)`'s inverse index, the "
+                     f"inverse index of np.unique(drawn faces): it numbers the *distinct* drawn faces (rows of unique(...)[0]), not the faces of the "
+                     f"mesh - as soon as a face with a smaller id than a drawn face receives no sample, the i-th normal is the normal of another face "
+                     f"than the one the i-th point lies on (gather the rows of the distinct faces first, or index by the drawn faces)")
+        elif v == "ok" and other and all(F.find_calls(d, "choice") for d in other + [dr]) \
                 and any(F.is_synth(x, "__mutated__") for d in other + [dr] for x in ast.walk(d)):
             ctx.fail("C19-F1", s, "sample_surface: returned normals are not face_normals(mesh) indexed by the drawn faces in order",
                      f"the normals are gathered from `{au.src(dr)[:70]}` but the points from `{au.src(other[0])[:90]}`: the drawn array is "
